@@ -654,6 +654,122 @@ fn case_repeat(kv: &Kv) -> String {
     format!("ops={} all_same={}", fmt_calls(&ops_to_calls(&base)), if all_same { 1 } else { 0 })
 }
 
+// The deadline VALUE that reaches the algorithm (recorded by the similar_verif hook):
+// timeouts must be measured from the start of the diff, absolute deadlines must arrive unchanged.
+fn case_plumb(kv: &Kv) -> String {
+    use std::time::{Duration, Instant};
+    let entry = kv["entry"];
+    let alg = parse_alg(kv["alg"]);
+    let gap = Duration::from_millis(kv.get("gap").map(|x| x.parse().unwrap()).unwrap_or(15));
+    let o = unhex(kv["old"]);
+    let n = unhex(kv["new"]);
+    let d = Duration::from_millis(kv.get("d").map(|x| x.parse().unwrap()).unwrap_or(5));
+    let fmt = |seen: bool, exact: Option<bool>, lo: Option<bool>, hi: Option<bool>| {
+        let f = |x: Option<bool>| match x {
+            None => "-",
+            Some(true) => "1",
+            Some(false) => "0",
+        };
+        format!("seen={} exact={} lo={} hi={}", if seen { 1 } else { 0 }, f(exact), f(lo), f(hi))
+    };
+    // the virtual clock (never expiring) answers the probes; the recorded value is what we look at
+    let window = |run: &mut dyn FnMut()| -> (Option<Instant>, Instant, Instant) {
+        similar::verif::clock_install(None);
+        similar::verif::reset_last_deadline();
+        let t0 = Instant::now();
+        run();
+        let t1 = Instant::now();
+        similar::verif::clock_remove();
+        (similar::verif::last_deadline(), t0, t1)
+    };
+    let rel = |seen: Option<Instant>, t0: Instant, t1: Instant| match seen {
+        None => fmt(false, None, None, None),
+        Some(x) => fmt(true, None, Some(x >= t0 + d), Some(x <= t1 + d)),
+    };
+    let abs = |seen: Option<Instant>, want: Instant| match seen {
+        None => fmt(false, None, None, None),
+        Some(x) => fmt(true, Some(x == want), None, None),
+    };
+    let oi: Vec<u32> = o.iter().map(|x| *x as u32).collect();
+    let ni: Vec<u32> = n.iter().map(|x| *x as u32).collect();
+    match entry {
+        // builder configured, time passes, then the diff runs
+        "timeout" | "timeout_reuse" | "timeout_clone" => {
+            let mut c = TextDiff::configure();
+            c.algorithm(alg);
+            c.timeout(d);
+            std::thread::sleep(gap);
+            if entry == "timeout_reuse" {
+                // an earlier diff with the same builder
+                let _ = c.diff_chars(&o[..], &n[..]);
+                std::thread::sleep(gap);
+            }
+            let c2 = if entry == "timeout_clone" { c.clone() } else { c };
+            let (seen, t0, t1) = window(&mut || {
+                let _ = c2.diff_chars(&o[..], &n[..]);
+            });
+            rel(seen, t0, t1)
+        }
+        "deadline" => {
+            let want = Instant::now() + Duration::from_secs(1800);
+            let mut c = TextDiff::configure();
+            c.algorithm(alg);
+            c.deadline(want);
+            std::thread::sleep(gap);
+            let (seen, _, _) = window(&mut || {
+                let _ = c.diff_chars(&o[..], &n[..]);
+            });
+            abs(seen, want)
+        }
+        "capture" => {
+            let want = Instant::now() + Duration::from_secs(1700);
+            let (seen, _, _) = window(&mut || {
+                let _ = similar::capture_diff_deadline(alg, &oi[..], 0..oi.len(), &ni[..], 0..ni.len(), Some(want));
+            });
+            abs(seen, want)
+        }
+        "capture_slices" => {
+            let want = Instant::now() + Duration::from_secs(1600);
+            let (seen, _, _) = window(&mut || {
+                let _ = similar::capture_diff_slices_deadline(alg, &oi[..], &ni[..], Some(want));
+            });
+            abs(seen, want)
+        }
+        "algo" => {
+            let want = Instant::now() + Duration::from_secs(1500);
+            let (seen, _, _) = window(&mut || {
+                let mut h = similar::algorithms::Capture::new();
+                let _ = similar::algorithms::diff_deadline(alg, &mut h, &oi[..], 0..oi.len(), &ni[..], 0..ni.len(), Some(want));
+            });
+            abs(seen, want)
+        }
+        "algo_slices" => {
+            let want = Instant::now() + Duration::from_secs(1400);
+            let (seen, _, _) = window(&mut || {
+                let mut h = similar::algorithms::Capture::new();
+                let _ = similar::algorithms::diff_slices_deadline(alg, &mut h, &oi[..], &ni[..], Some(want));
+            });
+            abs(seen, want)
+        }
+        "inline" => {
+            // the second-level diff of iter_inline_changes_deadline gets the deadline it is given
+            let want = Instant::now() + Duration::from_secs(1300);
+            let mut c = TextDiff::configure();
+            c.algorithm(alg);
+            let td = c.diff_lines(&o[..], &n[..]);
+            let (seen, _, _) = window(&mut || {
+                for op in td.ops() {
+                    for ch in td.iter_inline_changes_deadline(op, Some(want)) {
+                        let _ = ch.tag();
+                    }
+                }
+            });
+            abs(seen, want)
+        }
+        _ => panic!("bad entry"),
+    }
+}
+
 pub fn run(comp: &str, kv: &Kv) -> String {
     match comp {
         "tok" => case_tok(kv),
@@ -667,6 +783,7 @@ pub fn run(comp: &str, kv: &Kv) -> String {
         "close" => case_close(kv),
         "identify" => case_identify(kv),
         "repeat" => case_repeat(kv),
+        "plumb" => case_plumb(kv),
         _ => format!("UNKNOWN-COMPONENT {}", comp),
     }
 }
